@@ -34,7 +34,8 @@ class Undecided(Exception):
 
 def run_extract(repo, features, items, workdir):
     req = {"repo": repo, "features": features, "items": items}
-    p = os.path.join(workdir, "extract_req.json")
+    os.makedirs(workdir, exist_ok=True)
+    p = os.path.join(workdir, "extract_req_%d_%d.json" % (os.getpid(), id(items)))
     with open(p, "w") as f:
         json.dump(req, f)
     r = subprocess.run([EXTRACT, p], capture_output=True, text=True)
@@ -206,6 +207,7 @@ def emit_ghost(out, sec, indent, fn):
 def assemble_unit(unit_name, unit_dir, cfg, extracted, prelude_files, canary=False, extra_prelude_text=""):
     """Returns Assembled."""
     A = Assembled()
+    canary_n = [0]
     A.add("// GENERATED by /verif/vx/assemble.py — do not edit. Unit " + unit_name, {"k": "gen"})
     A.add("#![allow(unused_imports, unused_variables, unused_mut, dead_code, unused_assignments, unused_parens, unused_braces, non_snake_case)]", {"k": "gen"})
     A.add("use vstd::prelude::*;", {"k": "gen"})
@@ -339,7 +341,8 @@ def assemble_unit(unit_name, unit_dir, cfg, extracted, prelude_files, canary=Fal
                 if hsec:
                     emit_ghost(out, hsec, indent, f_)
                 if canary:
-                    out.append((indent + f"assert(false); // CANARY {f_}:{kind}:{k}", {"k": "canary", "fn": f_, "id": f"{f_}:{kind}:{k}"}))
+                    canary_n[0] += 1
+                    out.append((indent + f"assert(!vx_canary({canary_n[0]})); // CANARY {f_}:{kind}:{k}", {"k": "canary", "fn": f_, "id": f"{f_}:{kind}:{k}"}))
                 idx += 1
                 continue
             m = re.match(r'^vx_fn_end!\((\w+)\);$', stripped)
@@ -349,7 +352,8 @@ def assemble_unit(unit_name, unit_dir, cfg, extracted, prelude_files, canary=Fal
                 if hsec:
                     emit_ghost(out, hsec, indent, f_)
                 if canary:
-                    out.append((indent + f"assert(false); // CANARY {f_}:fn_end", {"k": "canary", "fn": f_, "id": f"{f_}:fn_end"}))
+                    canary_n[0] += 1
+                    out.append((indent + f"assert(!vx_canary({canary_n[0]})); // CANARY {f_}:fn_end", {"k": "canary", "fn": f_, "id": f"{f_}:fn_end"}))
                 idx += 1
                 continue
             # anchored sections
